@@ -1,3 +1,13 @@
 import ThriftVerif.Props.C09
 #print axioms Props.C09.old_reads_new
 #print axioms Props.C09.new_reads_old
+#print axioms Props.C09.tables_match
+#print axioms Props.C09.unknown_append_write
+#print axioms Props.C09.append_agrees_with_skip
+#print axioms Props.C09.depth_limit
+#print axioms Props.C09.ku_reads_like_std
+#print axioms Props.C09.ku_no_unknown_is_std
+#print axioms Props.C09.carrying_iff
+#print axioms Props.C09.keep_roundtrip
+#print axioms Props.C09.chain
+#print axioms Props.C09.union_unknown_member_not_rewritable
